@@ -372,7 +372,7 @@ def fn_line_ranges(path):
         m = re.match(r'\s*impl\s+(\w+)\s*\{', line)
         if m and depth <= 1:
             impl = m.group(1)
-        m = re.match(r'\s*(?:pub\s+)?(?:proof\s+|spec\s+|open\s+spec\s+|closed\s+spec\s+)?fn\s+(\w+)', line)
+        m = re.match(r'\s*(?:pub(?:\([a-z]+\))?\s+)?(?:(?:unsafe|const|proof|spec|open|closed|uninterp)\s+)*fn\s+(\w+)', line)
         if m:
             nm = m.group(1)
             cur = (impl + '::' + nm) if (impl and line.startswith(' ') is False and False) else nm
